@@ -92,6 +92,15 @@ def run(ck, F):
         ck.rules[r]['floor'] = 30
     ck.rules[K.R_atom]['floor'] = 2
 
+    # the bytes of a spelling are what the printer writes: a write past what was allocated for a word lands in the next word's header
+    # (or is overwritten by it), and what is printed then depends on which unrelated words were interned, and in which order
+    R_fp = ck.rule('C17.arena-writes-in-bounds', 'a function that fills a header obtained from arena::allocate(A) writes the length field and '
+                   'data[0 .. A) only (affine comparison, valid for every length): a terminator written after the last byte belongs to the '
+                   'neighbouring word, and text that relies on it changes with the interning history', floor=1)
+    import arena as _arena
+    for fid_, loc_, inst_, ok_, msg_ in _arena.footprint(F):
+        ck.check(R_fp, inst_, ok_, msg_, loc=loc_, fn=fid_)
+
     R1 = ck.rule('C17.no-address-text', 'no function reachable from the printer inserts a pointer into the stream, converts a '
                  'pointer to an integer or prints type_info text', floor=300)
     R2 = ck.rule('C17.ordered-iteration', 'no iteration reachable from the printer ranges over a hashed container, an ordered container keyed '
